@@ -459,7 +459,7 @@ fn subst_lines(body: &[Ln], args: &[Opnd]) -> Result<Vec<Ln>, String> {
 }
 
 fn expand_call(f: &mut Flattener, name: &str, args: &[Opnd], id: usize, depth: usize, out: &mut Vec<Flat>) {
-    if depth > 16 {
+    if depth > 48 {
         f.unsure = Some("macro recursion".into());
         return;
     }
